@@ -53,6 +53,7 @@ type FuncContract struct {
 	Props    []string
 	Params   []string
 	Results  []string
+	Template string // header text when the contract was expanded from a {a,b} template
 	HasHdr   bool
 	Lets     []*LetSpec
 	Requires []*Clause
@@ -77,6 +78,7 @@ type FuncContract struct {
 	OnGo     []*EffectSpec
 	OnRecv   map[string][]*EffectSpec
 	OnSend   map[string][]*EffectSpec
+	OnCall   map[string][]*EffectSpec // callee short name -> ghost updates applied after a direct call
 	Assume   []*Clause // assumed at entry without being checked at call sites (type invariants)
 }
 
@@ -126,6 +128,16 @@ type Monitor struct {
 	Props      []string
 }
 
+// WritersSpec is a frame contract on a memory key: only the listed functions may contain a
+// (direct) write to it; writes into objects the writing invocation allocated itself do not count.
+type WritersSpec struct {
+	Key   string
+	Allow []string
+	Pkg   string
+	Props []string
+	File  string
+}
+
 type GhostVar struct {
 	Name string
 	Type ast.Expr
@@ -141,6 +153,7 @@ type UFun struct {
 type ContractDB struct {
 	Funcs     map[string]*FuncContract
 	FuncList  []*FuncContract
+	Writers   []*WritersSpec
 	Callsites []*CallsiteContract
 	Lemmas    []*Lemma
 	Monitors  []*Monitor
@@ -346,10 +359,11 @@ func (db *ContractDB) loadContractFile(path, pkg string) error {
 	var curL *Lemma
 	var curM *Monitor
 	var curLoop *LoopSpec
+	var curW *WritersSpec
 	var pending string
 	var pendingLn int
 	ln := 0
-	reset := func() { curF, curC, curL, curM, curLoop = nil, nil, nil, nil, nil }
+	reset := func() { curF, curC, curL, curM, curLoop, curW = nil, nil, nil, nil, nil, nil }
 	handle := func(line string, ln int) error {
 		pos := fmt.Sprintf("%s:%d", filepath.Base(filepath.Dir(path))+"/"+filepath.Base(path), ln)
 		fields := strings.Fields(line)
@@ -438,9 +452,24 @@ func (db *ContractDB) loadContractFile(path, pkg string) error {
 			}
 			db.Axioms = append(db.Axioms, c)
 			db.AxiomPkg = append(db.AxiomPkg, pkg)
+		case "writers":
+			reset()
+			curW = &WritersSpec{Key: expandModRel(strings.TrimSpace(rest)), Pkg: pkg, File: pos}
+			db.Writers = append(db.Writers, curW)
+		case "allow":
+			if curW == nil {
+				return fmt.Errorf("%s: allow outside a writers block", pos)
+			}
+			for _, a := range strings.Split(rest, ",") {
+				if a = strings.TrimSpace(a); a != "" {
+					curW.Allow = append(curW.Allow, a)
+				}
+			}
 		case "prop":
 			ps := splitNames(strings.ReplaceAll(rest, " ", ","))
 			switch {
+			case curW != nil:
+				curW.Props = append(curW.Props, ps...)
 			case curF != nil:
 				curF.Props = append(curF.Props, ps...)
 			case curC != nil:
@@ -582,7 +611,7 @@ func (db *ContractDB) loadContractFile(path, pkg string) error {
 				return fmt.Errorf("%s: %v", pos, err)
 			}
 			curF.Effects = append(curF.Effects, &EffectSpec{Ghost: strings.TrimPrefix(strings.TrimSpace(rest[:i]), "$"), Expr: e, Text: rest})
-		case "on-go", "on-recv", "on-send":
+		case "on-go", "on-recv", "on-send", "on-call":
 			// ghost effects attached to statements of the function under contract:
 			//   on-go: $x = e            at every go statement
 			//   on-recv <chan var>: $x = e   at every receive from that channel variable (v = the value received)
@@ -591,7 +620,7 @@ func (db *ContractDB) loadContractFile(path, pkg string) error {
 			}
 			body := rest
 			ch := ""
-			if kw == "on-recv" || kw == "on-send" {
+			if kw == "on-recv" || kw == "on-send" || kw == "on-call" {
 				i := strings.Index(rest, ":")
 				if i < 0 {
 					return fmt.Errorf("%s: on-recv needs '<chan>: $g = expr'", pos)
@@ -612,6 +641,11 @@ func (db *ContractDB) loadContractFile(path, pkg string) error {
 			ef := &EffectSpec{Ghost: strings.TrimPrefix(strings.TrimSpace(body[:i]), "$"), Expr: e, Text: rest}
 			if kw == "on-go" {
 				curF.OnGo = append(curF.OnGo, ef)
+			} else if kw == "on-call" {
+				if curF.OnCall == nil {
+					curF.OnCall = map[string][]*EffectSpec{}
+				}
+				curF.OnCall[ch] = append(curF.OnCall[ch], ef)
 			} else if kw == "on-send" {
 				if curF.OnSend == nil {
 					curF.OnSend = map[string][]*EffectSpec{}
@@ -680,6 +714,12 @@ func (db *ContractDB) loadContractFile(path, pkg string) error {
 		}
 		return nil
 	}
+	// pass 1: logical lines (continuations joined)
+	type lline struct {
+		text string
+		ln   int
+	}
+	var lines []lline
 	for sc.Scan() {
 		ln++
 		line := sc.Text()
@@ -697,20 +737,79 @@ func (db *ContractDB) loadContractFile(path, pkg string) error {
 		}
 		// continuation lines start with "//@ |"
 		ts := strings.TrimSpace(t)
-		if strings.HasPrefix(ts, "|") {
-			pending += " " + strings.TrimSpace(ts[1:])
+		if strings.HasPrefix(ts, "|") && len(lines) > 0 {
+			lines[len(lines)-1].text += " " + strings.TrimSpace(ts[1:])
 			continue
 		}
-		if err := flush(); err != nil {
-			return err
-		}
-		pending = ts
-		pendingLn = ln
+		lines = append(lines, lline{ts, ln})
 	}
-	if err := flush(); err != nil {
+	if err := sc.Err(); err != nil {
 		return err
 	}
-	return sc.Err()
+	_ = flush
+	_ = pending
+	_ = pendingLn
+	// pass 2: template contracts. A `func` header with {a,b,c} alternatives stands for one
+	// contract per combination, all with the same body; combinations that name no function of the
+	// package are skipped (at least one must exist).
+	isHeader := func(t string) bool {
+		switch strings.Fields(t)[0] {
+		case "func", "extern", "callsite", "lemma", "monitor", "ghost", "ufun", "axiom", "writers":
+			return true
+		}
+		return false
+	}
+	for i := 0; i < len(lines); {
+		l := lines[i]
+		if strings.HasPrefix(l.text, "func ") && strings.Contains(l.text, "{") {
+			j := i + 1
+			for j < len(lines) && !isHeader(lines[j].text) {
+				j++
+			}
+			heads := expandBraces(l.text)
+			for _, h := range heads {
+				before := len(db.FuncList)
+				if err := handle(h, l.ln); err != nil {
+					return err
+				}
+				if len(db.FuncList) > before {
+					db.FuncList[len(db.FuncList)-1].Template = l.text
+				}
+				for _, b := range lines[i+1 : j] {
+					if err := handle(b.text, b.ln); err != nil {
+						return err
+					}
+				}
+			}
+			i = j
+			continue
+		}
+		if err := handle(l.text, l.ln); err != nil {
+			return err
+		}
+		i++
+	}
+	return nil
+}
+
+// expandBraces expands every {a,b,c} group of s (cartesian product).
+func expandBraces(s string) []string {
+	i := strings.Index(s, "{")
+	if i < 0 {
+		return []string{s}
+	}
+	j := strings.Index(s[i:], "}")
+	if j < 0 {
+		return []string{s}
+	}
+	j += i
+	var out []string
+	for _, alt := range strings.Split(s[i+1:j], ",") {
+		for _, rest := range expandBraces(s[j+1:]) {
+			out = append(out, s[:i]+strings.TrimSpace(alt)+rest)
+		}
+	}
+	return out
 }
 
 // loadContracts reads all contract files of the repository and the spec directory.
@@ -741,12 +840,32 @@ func loadContracts(p *Prog, specDir string) (*ContractDB, error) {
 		}
 	}
 	// resolve function contracts
+	tmplMissing := map[string]int{}
+	tmplTotal := map[string]int{}
+	for _, fc := range db.FuncList {
+		if fc.Template != "" {
+			tmplTotal[fc.Template+"@"+fc.File]++
+		}
+	}
+	defer func() {
+		kept := db.FuncList[:0]
+		for _, fc := range db.FuncList {
+			if fc.Key != "" {
+				kept = append(kept, fc)
+			}
+		}
+		db.FuncList = kept
+	}()
 	for _, fc := range db.FuncList {
 		name := expandModRel(fc.Name)
 		if fn := p.lookupFunc(name, fc.Pkg); fn != nil {
 			fc.Fn = fn
 			fc.Key = fn.String()
 		} else {
+			if fc.Template != "" {
+				tmplMissing[fc.Template+"@"+fc.File]++
+				continue
+			}
 			fc.Key = name
 			if fc.Pkg != "" && !fc.Extern {
 				// unresolved in-repo contract: keep, reported as contract-shape failure
@@ -757,6 +876,11 @@ func loadContracts(p *Prog, specDir string) (*ContractDB, error) {
 			return nil, fmt.Errorf("duplicate contract for %s (%s and %s)", fc.Key, old.File, fc.File)
 		}
 		db.Funcs[fc.Key] = fc
+	}
+	for k, n := range tmplMissing {
+		if n == tmplTotal[k] {
+			return nil, fmt.Errorf("template contract %s matches no function", k)
+		}
 	}
 	for _, cc := range db.Callsites {
 		if strings.HasPrefix(cc.Callee, "var:") {
